@@ -11,9 +11,12 @@
 // in the protected per-pair function actual_scatter_estimate(result, A, B) (harness-side subclass `Sim`), for the pair that
 // find_detectors reports for every bin; the stored bin value must equal estimate(A,B).
 //
-// Known findings excluded by construction (work/notes/C16_findings.md; VERIF_NO_EXCLUDE=1 or =F1,F3,... switches them off):
-//  F1 stale 511 keV efficiency after an energy-window change, F2 debug assertion for single-ring scanners,
-//  F3 NaN from the automatic scatter-point image of single-ring scanners, F4 repeated automatic scatter-point down-sampling.
+// Known findings (work/notes/C16_findings.md, probes in known/C16/): known_signature() classifies a history on the JSON alone
+// (F1 stale 511 keV efficiency after an energy-window change, F2 debug assertion for single-ring scanners, F3 NaN from the
+// automatic scatter-point image of single-ring scanners, F4 repeated automatic scatter-point down-sampling) and such a case is
+// rejected before it runs; the GENERATOR rewrites its histories so that they stay outside these classes (explicit scatter-point
+// image before the set_up for F3/F4, template re-set for F1, no single-ring templates for F2) and the search goes on behind them.
+// VERIF_NO_EXCLUDE=1 (or =F1,F4,...) switches classification and rewriting off.
 //
 // Preconditions taken from the code (ScatterSimulation.cxx unless said otherwise):
 //  * set_up(): error() unless template, exam info (with energy window, ExamInfo::has_energy_information:
